@@ -78,7 +78,7 @@ Definition C09_finish_full : Prop :=
 
 (* It is FALSE of the faithful model (finding F6): checkFinishDistribution uses the pre-distribution FilledEpochs. *)
 Theorem C09_finish_refuted : ~ C09_finish_full.
-Proof. intros H; exact (finexact_refuted (H w_cfg w_funds w_ops w_cfg_ok)). Qed.
+Proof. exact finish_full_refuted. Qed.
 Print Assumptions C09_finish_refuted.
 
 (* the witness in numbers: 10^10 over 2 epochs, one lock at epoch 1, withdrawn before epoch 2 => finished 1/2,
@@ -106,10 +106,7 @@ Print Assumptions C09_finishes_after_exactly_N_paying_epochs.
    fewer than N, a finished one at most N; perpetual gauges never finish *)
 Theorem C09_filled_bounds : forall cfg funds ops g, cfg_ok cfg ->
   let s := run cfg (init_state funds) ops in In g (s_gauges s) -> fill_ok s g.
-Proof.
-  intros cfg funds ops g Hc s Hi. pose proof (I_fill _ (reachable_inv cfg funds ops Hc)) as F.
-  rewrite Forall_forall in F. exact (F g Hi).
-Qed.
+Proof. exact filled_bounds. Qed.
 Print Assumptions C09_filled_bounds.
 
 (* one epoch end, exactly: FilledEpochs grows by one iff a lock qualified; the gauge is finished iff N <= filled_before + 1 *)
@@ -167,12 +164,7 @@ Proof. exact witness_F4. Qed.
 Print Assumptions C09_share_refuted_receiver.
 
 Theorem C09_share_refuted : ~ C09_share_full.
-Proof.
-  intros H. destruct witness_F2 as (E & D & I & _).
-  specialize (H w_cfg w_funds w2_ops w_thr (epoch_of w_cfg w_thr w2_pre) w_cfg_ok w_thr_positive E 1 0 ltac:(unfold MODULE; lia)).
-  fold w2_pre in H.
-  rewrite D, I in H. clear - H. discriminate H.
-Qed.
+Proof. exact share_full_refuted. Qed.
 Print Assumptions C09_share_refuted.
 
 (* PROVED PART (what is missing for the full statement is exactly the two findings): under the hypotheses
@@ -221,10 +213,7 @@ Proof. exact witness_F3. Qed.
 Print Assumptions C09_epoch_aborted_witness.
 
 Theorem C09_epoch_succeeds_refuted : ~ C09_epoch_succeeds_full.
-Proof.
-  intros H. destruct (H w_cfg w_funds w3_ops w3_thr w_cfg_ok w3_thr_positive) as (s' & E).
-  fold w3_pre in E. destruct witness_F3 as [W _]. rewrite W in E. clear - E. discriminate E.
-Qed.
+Proof. exact epoch_succeeds_full_refuted. Qed.
 Print Assumptions C09_epoch_succeeds_refuted.
 
 (* PROVED PART, and exact characterisation of C09-F3: an error of the injected min-value quote is the ONLY way an epoch
@@ -235,41 +224,25 @@ Theorem C09_epoch_succeeds_partial : forall cfg funds ops thr, cfg_ok cfg -> thr
 Proof. exact epoch_fails_only_by_quote_error. Qed.
 Print Assumptions C09_epoch_succeeds_partial.
 
-(* ---- non-vacuity: a history that meets the hypothesis of the conditional finishing theorem, on which the gauge
-   really pays twice and finishes with 2 of 2 epochs *)
-Definition nv_ops : list op :=
-  [ OGauge 0 false 0 3600000 [(0, 10 ^ 10)] 0 2;
-    OLock 1 0 1000 3600000; OLock 2 0 3000 10800000;
-    OEpoch 86400000 [TVal 1; TNoRoute; TNoRoute; TNoRoute; TNoRoute];
-    OUnlock 1 0;
-    OEpoch 86400000 [TVal 1; TNoRoute; TNoRoute; TNoRoute; TNoRoute] ].
+(* ---- non-vacuity (the concrete histories nv_ops, nv2_ops are defined in C09/Proofs.v) *)
+(* a history that meets the hypothesis of the conditional finishing theorem, on which the gauge really pays twice and
+   finishes with 2 of 2 epochs *)
 Example C09_nonvacuous :
   cfg_ok w_cfg /\ all_qualified w_cfg (init_state w_funds) nv_ops /\
   let s := run w_cfg (init_state w_funds) nv_ops in
   refs_all (s_fin s) = [1] /\ map g_filled (s_gauges s) = [2] /\
   map (fun g => amount_of (g_dist g) 0) (s_gauges s) = [10 ^ 10] /\
   s_bank s 1 0 - w_funds 1 0 = 2500000000 /\ s_bank s 2 0 - w_funds 2 0 = 7500000000.
-Proof.
-  split; [exact w_cfg_ok|]. split; [apply all_qualified_b_spec; vm_compute; reflexivity|].
-  vm_compute. repeat split; reflexivity.
-Qed.
+Proof. exact nonvacuous_finish. Qed.
 
-(* non-vacuity of the share theorem: two owners, two locks, one 2-epoch gauge; the hypotheses hold and the credits
-   are the floors 10^10/2 * 1000/4000 and 10^10/2 * 3000/4000 *)
-Definition nv2_ops : list op :=
-  [ OGauge 0 false 0 3600000 [(0, 10 ^ 10)] 0 2; OLock 1 0 1000 3600000; OLock 2 0 3000 10800000; OTime 86400000 ].
-Definition nv2_pre : state := run w_cfg (init_state w_funds) nv2_ops.
+(* a reachable state that meets every hypothesis of the share / lifecycle / finishing-step / liveness theorems: the
+   gauge is upcoming with its start time reached, takes part with qualifying locks, the epoch end succeeds and the
+   credits are the floors 10^10/2 * 1000/4000 and 10^10/2 * 3000/4000 *)
 Example C09_share_nonvacuous :
-  cfg_ok w_cfg /\ thr_positive w_thr /\ consistent_receivers (s_locks nv2_pre) /\
+  cfg_ok w_cfg /\ thr_positive w_thr /\ thr_no_error w_thr /\ consistent_receivers (s_locks nv2_pre) /\
   (forall g, takes_part nv2_pre g -> share_hyp w_cfg (s_locks nv2_pre) g) /\
+  (exists g, takes_part nv2_pre g /\ g_perp g = false /\ elig (s_locks nv2_pre) g <> [] /\
+             In (g_id g) (refs_all (s_up nv2_pre)) /\ g_start g <= s_now nv2_pre) /\
   after_epoch_end w_cfg w_thr nv2_pre = Ok (epoch_of w_cfg w_thr nv2_pre) /\
   ideal_credit w_cfg w_thr nv2_pre 1 0 = 1250000000 /\ ideal_credit w_cfg w_thr nv2_pre 2 0 = 3750000000.
-Proof.
-  split; [exact w_cfg_ok|]. split; [exact w_thr_positive|]. split.
-  { intros l1 l2 H1 H2. vm_compute in H1, H2.
-    destruct H1 as [<-|[<-|[]]]; destruct H2 as [<-|[<-|[]]]; vm_compute; intros; congruence. }
-  split.
-  { intros g [Hi _]. vm_compute in Hi. destruct Hi as [<-|[]]. unfold share_hyp. split; [|split; vm_compute; reflexivity].
-    intros remain Hr _. vm_compute in Hr. inversion Hr; subst. vm_compute. reflexivity. }
-  vm_compute. repeat split; reflexivity.
-Qed.
+Proof. exact nonvacuous_share. Qed.
